@@ -83,3 +83,15 @@ proof fn lemma_remove_key_gone(m: Seq<(Seq<char>, J)>, k: Seq<char>)
         }
     }
 }
+// broadcast forms of the JSON-view lemmas, so that contracts need no statement-position anchors
+broadcast proof fn b_jv_entries_len(s: Seq<(String, Value)>)
+    ensures #[trigger] jv_entries(s).len() == s.len()
+{ lemma_jv_entries(s); }
+broadcast proof fn b_jv_entries_idx(s: Seq<(String, Value)>, i: int)
+    requires 0 <= i < s.len()
+    ensures #[trigger] jv_entries(s)[i] == (s[i].0@, jv(s[i].1))
+{ lemma_jv_entries(s); }
+broadcast proof fn b_j_idx(s: Seq<(Seq<char>, J)>, k: Seq<char>)
+    ensures #![trigger j_idx(s, k)] j_idx(s, k) >= -1 && (j_has(s, k) ==> 0 <= j_idx(s, k) < s.len() && s[j_idx(s, k)].0 == k)
+{ lemma_j_idx(s, k); }
+broadcast group group_json { b_jv_entries_len, b_jv_entries_idx, b_j_idx }
